@@ -334,7 +334,13 @@ fn next_stmt_inner(rng: &mut Rng, m: &mut CatM, big: bool) -> Planned {
                 return Planned { sql, want: Want::Err, kind: "ctas_failing" };
             }
             let cols: Vec<String> = s.cols.iter().map(|c| c.0.clone()).collect();
-            let sql = format!("CREATE TEMP TABLE {} AS SELECT {} FROM {}", table_sql(&key), cols.join(", "), table_sql(&source));
+            let ine = rng.chance(1, 3);
+            let sql = format!("CREATE TEMP TABLE {}{} AS SELECT {} FROM {}", if ine { "IF NOT EXISTS " } else { "" }, table_sql(&key), cols.join(", "), table_sql(&source));
+            if ine && schema_ok && m.tables.contains_key(&key) {
+                // the table exists: the statement must not touch it (later probes
+                // compare its contents with the unchanged model)
+                return Planned { sql, want: Want::Ok, kind: "ctas_if_not_exists_noop" };
+            }
             if !schema_ok || taken {
                 return Planned { sql, want: Want::Err, kind: "ctas_dup" };
             }
